@@ -87,11 +87,13 @@ def gen_const(rng: random.Random, name: str):
         s = rng.choice(["a", "", "ab", "é", "\x00", "\x7f", "ÿ", "Z", " ", "\x80", "0", "K", "`", ";"] + [rng.choice(rng.choice([cl for cl in ASCII_LOOKALIKE_CLASSES if cl]))] * 6
                        # one ASCII character next to a character that text sanitisers tend to drop (BOM / zero-width / soft hyphen /
                        # variation selector / combining mark): two characters, never a valid uint8 initializer
-                       + [rng.choice("azZ#09 ") + rng.choice(INVISIBLES), rng.choice(INVISIBLES) + rng.choice("azZ#09"), rng.choice(INVISIBLES)] * 2)
+                       + [rng.choice("azZ#09 ") + rng.choice(INVISIBLES), rng.choice(INVISIBLES) + rng.choice("azZ#09"), rng.choice(INVISIBLES)] * 2
+                       # a single raw byte 0x80..0xFF in the file (Latin-1 text pasted into the definition): not valid UTF-8, not ASCII
+                       + [chr(0xDC00 + rng.choice([0x80, 0xb5, 0xe9, 0xff, 0xa0, 0xc3])), "a" + chr(0xDC00 + 0xe9)])
         if rng.random() < 0.5 and t[0] != "bool":
             t = ["u", 8, rng.choice("st")]  # the only type that can accept a character at all
         raw = rng.random() < 0.4  # the character itself in the (UTF-8) file instead of an escape sequence
-        lit = "'" + "".join(c if ((32 <= ord(c) < 127 or (raw and ord(c) >= 0xa0 and (c.isprintable() or c in INVISIBLES))) and c not in "'\\") else ("\\u%04x" % ord(c) if ord(c) < 0x10000 else "\\U%08x" % ord(c)) for c in s) + "'"
+        lit = "'" + "".join(c if ((32 <= ord(c) < 127 or (raw and ord(c) >= 0xa0 and (c.isprintable() or c in INVISIBLES)) or 0xDC80 <= ord(c) <= 0xDCFF) and c not in "'\\") else ("\\u%04x" % ord(c) if ord(c) < 0x10000 else "\\U%08x" % ord(c)) for c in s) + "'"
         return ["c", t, name, lit, {"str": s}]
     if k < 0.24:
         return ["c", t, name, "{1, 2}", {"set": 1}]
@@ -205,7 +207,7 @@ class C12(Check):
                         cls = "set"
                     elif isinstance(v, dict):
                         good = rules.const_value_ok(it[1], v["str"])
-                        cls = "str%d" % len(v["str"].encode("utf-8"))
+                        cls = "str%d" % len(v["str"].encode("utf-8", "surrogateescape"))
                     else:
                         good = rules.const_value_ok(it[1], v)
                         cls = "bool" if isinstance(v, bool) else self._vclass(it[1], v)
